@@ -14,6 +14,7 @@ func init() {
 				{Harness: "c07.canary", Mode: "checkptr", Shards: 16, GC: "on"},
 				{Harness: "c07.retain", Mode: "plain", Shards: 16, GC: "on"},
 				{Harness: "c07.overread", Mode: "checkptr", Shards: 16, GC: "on"},
+				{Harness: "c07.bystanders", Mode: "shim", Shards: 16},
 			}
 		},
 	})
